@@ -700,7 +700,7 @@ pub fn main_with(lookup: Lookup) {
                 results.lock().unwrap()[i] = Some("badcase".to_string());
                 continue;
             }
-            if lines[i][0] == "acc" && lines[i].iter().any(|t| t.starts_with('f') || t.starts_with('F') || t == "L") {
+            if lines[i][0] == "acc" && lines[i].iter().any(|t| t.starts_with('f') || t.starts_with('F') || t.starts_with('G') || t == "L") {
                 continue; // changes the process-wide descriptor limit: run alone, below
             }
             let r = run_one(lines[i].clone(), lookup);
